@@ -335,11 +335,12 @@ C_WaitAndStop(c) ==
   /\ H' = [H EXCEPT !.ctl = @ + 1]
 \* Stop(): the switch on the status
 I_Stop(p) ==
-  /\ S.pc[p] = "i.stop" /\ S.lc = "none"
-  /\ CASE S.ws = "stopped" -> S' = Pop(S, p) /\ H' = HPop(p, "nil")
+  /\ S.pc[p] = "i.stop" /\ S.lc \in {"none", p}
+  /\ LET rel == [S EXCEPT !.lc = "none"] IN
+     CASE S.ws = "stopped" -> S' = Pop(rel, p) /\ H' = HPop(p, "nil")
        [] S.ws = "running" -> S' = [S EXCEPT !.lc = p, !.pc[p] = "i.pause", !.stk[p] = <<"i.wuf", "i.stop2">> \o @] /\ UNCHANGED H
        [] S.ws = "paused" -> S' = [S EXCEPT !.lc = p, !.pc[p] = "i.wuf", !.stk[p] = <<"i.stop2">> \o @] /\ UNCHANGED H
-       [] OTHER -> S' = Pop(S, p) /\ H' = HPop(p, "ErrNotRunningWorker")
+       [] OTHER -> S' = Pop(rel, p) /\ H' = HPop(p, "ErrNotRunningWorker")
 I_Stop2(p) ==
   /\ S.pc[p] = "i.stop2"
   /\ S' = [S EXCEPT !.pc[p] = "stop.waited"]
@@ -429,24 +430,25 @@ ST_Go2(p) ==
   /\ S.pc[p] = "i.start.2" /\ (Expiry => MxFree)
   /\ Unborn(PGSeq) # {}
   /\ Expiry => Unborn(ReapSeq) # {}
-  /\ WithCtx => Unborn(LisSeq) # {}
   /\ \E n \in S.cache \cup (IF Nodes \ S.used = {} THEN {} ELSE {CHOOSE m \in Nodes \ S.used : \A k \in Nodes \ S.used : m <= k}) :
        LET g == FirstUnborn(PGSeq)
            s1 == [S EXCEPT !.pc[g] = "recv", !.loc[g].node = n,
                            !.cache = @ \ {n}, !.used = @ \cup {n},
                            !.loc[p].node = n, !.pc[p] = "node.init"]
            s2 == IF Expiry THEN [s1 EXCEPT !.pc[FirstUnborn(ReapSeq)] = "reap.wait", !.loc[FirstUnborn(ReapSeq)].g = S.gen, !.tick = @ \cup {S.gen}] ELSE s1
-           s3 == IF WithCtx THEN [s2 EXCEPT !.pc[FirstUnborn(LisSeq)] = "ctx.wait", !.loc[FirstUnborn(LisSeq)].g = S.ctxGen] ELSE s2
-       IN S' = s3
+       IN S' = s2
   /\ UNCHANGED H
 ST_Push(p) ==
   /\ S.pc[p] = "node.init" /\ p \notin Disps
   /\ S' = [S EXCEPT !.idle = Append(@, S.loc[p].node), !.pc[p] = "start.node"]
   /\ UNCHANGED H
-\* deferred: status.Store(running) ...
+\* deferred: status.Store(running); goListenToContext ...
 ST_Fin(p) ==
   /\ S.pc[p] = "start.node"
-  /\ S' = [S EXCEPT !.ws = "running", !.pc[p] = "i.start.notify"]
+  /\ WithCtx => Unborn(LisSeq) # {}
+  /\ S' = IF WithCtx THEN [S EXCEPT !.ws = "running", !.pc[p] = "i.start.notify",
+                                    !.pc[FirstUnborn(LisSeq)] = "ctx.wait", !.loc[FirstUnborn(LisSeq)].g = S.ctxGen]
+          ELSE [S EXCEPT !.ws = "running", !.pc[p] = "i.start.notify"]
   /\ UNCHANGED H
 \* ... then notify (RLock)
 ST_Notify(p) ==
@@ -465,10 +467,10 @@ X_Fire(x) ==
   /\ x \in Listeners /\ S.pc[x] = "ctx.wait" /\ CtxDone(S.loc[x].g)
   /\ S' = [S EXCEPT !.pc[x] = "ctx.fired"]
   /\ UNCHANGED H
-\* only the listener of the worker's current context stops the worker
+\* stop(c): under the lifecycle mutex, only the listener of the worker's current context stops the worker
 X_Check(x) ==
-  /\ x \in Listeners /\ S.pc[x] = "ctx.fired" /\ MxFree
-  /\ S' = IF S.ctxGen = S.loc[x].g THEN [Dirty(S) EXCEPT !.pc[x] = "i.stop"] ELSE [S EXCEPT !.pc[x] = "dead"]
+  /\ x \in Listeners /\ S.pc[x] = "ctx.fired" /\ S.lc = "none" /\ MxFree
+  /\ S' = IF S.ctxGen = S.loc[x].g THEN [Dirty(S) EXCEPT !.lc = x, !.pc[x] = "i.stop"] ELSE [S EXCEPT !.pc[x] = "dead"]
   /\ H' = IF S.ctxGen = S.loc[x].g THEN [H EXCEPT !.ctl = @ + 1] ELSE H
 
 ---- \* idle-worker remover
